@@ -1,6 +1,7 @@
 import EtVerif.Props.C04
 import EtVerif.Props.TrC04
 import EtVerif.Props.TrGo04
+import EtVerif.Props.TrGo04c
 #print axioms EtVerif.C04.canonicalize_sum_one
 #print axioms EtVerif.C04.canonicalize_ok_iff
 #print axioms EtVerif.C04.canonicalize_ratio
@@ -58,3 +59,5 @@ import EtVerif.Props.TrGo04
 #print axioms EtVerif.TrGo04.go_canonLT_scale_invariant_some
 #print axioms EtVerif.TrGo04.go_canonLT_scale_invariant_nonneg
 #print axioms EtVerif.TrGo04.go_pipeline_scale_invariant
+#print axioms EtVerif.TrGo04c.go_canonicalize_idempotent
+#print axioms EtVerif.TrGo04c.go_canonicalize_zero_sum_twice
